@@ -160,7 +160,8 @@ Section Read.
   Theorem C01_rtransparent_noop : rtransparent D H parse tcc_ext r_id.
   Proof. exact (rtransparent_id D H parse tcc_ext). Qed.
   (* nack generator, report receiver (RTP and RTCP), rfc8888, packetdump receiver (RTP [after
-     fix F24] and RTCP), nack responder (RTCP), cc (RTCP) *)
+     fix F24]), nack responder (RTCP), cc (RTCP); the packetdump receiver's RTCP side parses a
+     private copy and leaves the cache alone: C01b_rtransparent_parse_nocache *)
   Theorem C01_rtransparent_parse_record : forall keep, rtransparent D H parse tcc_ext (r_parse_record parse keep).
   Proof. exact (rtransparent_parse_record D H parse tcc_ext). Qed.
   Theorem C01_rtransparent_twcc_sender : forall sid, rtransparent D H parse tcc_ext (r_twcc_sender parse tcc_ext sid).
@@ -230,7 +231,8 @@ Print Assumptions C01_close_errors_preserved.
    differential run (TWCC via C15's SetExtension model): EVERY list of library members
    (kind codes of Check/C01Check.v, any order, any length, any options) bound as a chain is
    transparent for in-scope packets (RFC 8285 profile or no extension, stream packets
-   <= 1460 bytes, TWCC id 0 or 1..14). *)
+   <= 1460 bytes and, in the legacy padding form, a count within the payload; TWCC id 0 or
+   1..14). *)
 From IV Require Import Proofs.TwccHdrExtProofs Check.C01Check Proofs.ChainInstanceProofs.
 
 Theorem C01_library_chain_transparent : forall (c : cfg) (ms : list member_desc),
@@ -252,7 +254,7 @@ Print Assumptions C01_library_read_chains_transparent.
 Example C01_scope_inhabited :
   Pok_c (5000, 5, true, true, 888888, 118)
         (mkH [2; 1; 1; 96; 7; 9; 5000; 4; 11; 12] true PROFILE_ONE [(3, [1; 2])], (1, 1460)).
-Proof. split; [right; left; reflexivity|intros _; cbn; lia]. Qed.
+Proof. split; [right; left; reflexivity|intros _; split; [cbn; lia|reflexivity]]. Qed.
 Print Assumptions C01_scope_inhabited.
 
 (* outside the scope the header-extension member does refuse packets (stated, not hidden):
